@@ -133,7 +133,7 @@ use crate::tokenizer;
 use crate::parser::*;
 use crate::tokenizer_fns::{tok_chain, toks_ok, tok_ok};
 use crate::remover::{parts_wf, parts_on_b, all_el_wf};
-//@import parser_parse_proved
+//@import parser_parse_proved only=every_token_once_in_order
 
 pub proof fn lemma_toks_seq_ok_all(ts: Seq<tokenizer::Token>, cs: Seq<char>)
     ensures forall|ds: &str, de: &str| tok_chain(ts, cs, cs.len() as int) && #[trigger] toks_ok(ts, encode_utf8(cs), ds, de) ==> crate::remover::toks_seq_ok(ts, encode_utf8(cs)),
